@@ -57,20 +57,39 @@ package bytes
 //@   at loop#1.back use unfold_bcount(b.data, rangeindex+1, nl); unfold_bsince(b.data, rangeindex+1, nl)
 //@   at return use bcount_bounds(b.data, index, nlOf(b))
 
-// ---- unquoting (external decoder, assumed) ------------------------------------------------------------------
+// ---- unquoting: copy of encoding/json's string decoder ----------------------------------------------------
+// The decoder's verdict and output length are what minLength / maxLength / const / enum are defined on: the spec
+// functions unq_ok / unq_len are DEFINED as its results (defines clauses); safety, termination and the size
+// bound are proved on the body.
+
+//@ func getu4
+//@   property C01 C04 C02
+//@   ensures -1 <= result && result <= 65535 && (result >= 0 ==> len(s) >= 6)
+//@   no_panic
+//@   loop#1 invariant -1 <= rangeindex && rangeindex < 4 && 0 <= r && r < (rangeindex == -1 ? 1 : (rangeindex == 0 ? 16 : (rangeindex == 1 ? 256 : (rangeindex == 2 ? 4096 : 65536))))
+//@   loop#1 decreases 4 - rangeindex
 
 //@ func unquoteBytes
-//@   property C01 C04
-//@   trusted copy of encoding/json's string decoder: deterministic function of its input, panic-free; decoded text is never longer than the quoted one
-//@   ensures ok == unq_ok(s, len(s))
-//@   ensures ok ==> len(t) == unq_len(s, len(s)) && 0 <= unq_len(s, len(s)) && unq_len(s, len(s)) <= len(s) - 2
+//@   property C01 C04 C02
+//@   requires len(s) <= 1099511627776
+//@   assumes quoted strings are shorter than 2^40 bytes
+//@   defines ok == unq_ok(s, len(s))
+//@   defines ok ==> len(t) == unq_len(s, len(s))
+//@   ensures ok ==> 0 <= len(t) && len(t) <= 4 * len(s)
 //@   no_panic
+//@   loop#1 invariant 0 <= r && r <= len(s) && len(s) == len(old(s)) - 2
+//@   loop#1 decreases len(s) - r
+//@   loop#2 invariant 0 <= r && r <= len(s) && len(s) == len(old(s)) - 2
+//@   loop#2 invariant 0 <= w && w <= len(b) && len(b) >= 8 && w <= 4 * r
+//@   loop#2 invariant b.arr != 0 && fresh(b.arr) && len(b) <= 17592186044416
+//@   loop#2 decreases len(s) - r
 
 // length of the value with surrounding quotes removed and escapes decoded (what minLength / maxLength measure)
 //@ fun unquotedLen(b Bytes) Int := (len(b.data) >= 2 && b.data[0] == 34 && b.data[len(b.data)-1] == 34 && unq_ok(b.data, len(b.data))) ? unq_len(b.data, len(b.data)) : len(b.data)
 
 //@ func (Bytes).Unquote
 //@   property C01 C04 C02
+//@   requires len(b.data) <= 1099511627776
 //@   ensures len(result.data) == unquotedLen(b)
 //@   no_panic
 
